@@ -92,8 +92,6 @@ Proof. eexists. eexists. eexists. repeat split; vm_compute; reflexivity. Qed.
 (* parameter references: every terminating evaluation reads at most the key of the first segment, which is
    exactly what regex_eval of the DependencyResolver records *)
 
-Definition seg_key (g : seg) : string :=
-  match g with SgDot s => s | SgSingle raw | SgDouble raw => unesc2 raw | SgIdx n => dec n end.
 
 Definition env0 : list (string * nat) := [("inputs", 0)].
 Definition st0 : st := ([VInp], []).
